@@ -196,7 +196,14 @@ that cannot come round, merged call / exception-entry routines that keep the ord
 merged field parsers that do not widen what is accepted, a multi-entry instruction cache with correct
 tags, a decoded-instruction memo validated at use, a dispatch table, one-decode immediates, a two-level
 address decode, string tables indexed once with tail sharing, a handler cache validated against the
-vector bytes, hoisted load / store tails that price the access before the register changes.  Each keeps the suite green and, by its
+vector bytes, hoisted load / store tails that price the access before the register changes.  R5 / R6
+(after round 5, eight properties): correct versions of the round-5 kinds - `try_interrupt` with Option
+combinators that never pops under the mask, TRAPA and interrupts sharing an entry helper that leaves the
+queue alone, a lazy argv iterator with a trace line that does not consume it, pacing state re-initialised
+on cmd:start without touching the sync grid, an ioport validity check for exactly ports 1-B, messages
+moved into the channel and still printed, timer events from a table, merged `pc_rel`, a GOT walk over
+entry addresses, one PT_LOAD list for copy loop and image end, shared cost helpers for +/- forms and
+RTS / RTE.  Each keeps the suite green and, by its
 author's argument (most of them backed by a differential test against the old code), the property.
 Result: the registered checks were silent on {nr - alarms} of {nr}; **{alarms} raised an alarm that turned out
 to be a false alarm of the machinery** (C10-R2: order among simultaneously pending requests;
